@@ -355,6 +355,8 @@ pub struct StepCtx<'a> {
     pub envelope: bool,
     pub err: &'a str,
     pub deep: bool,
+    /// what the reward contract should have on record according to the bank history (C15)
+    pub ghost_recorded: Option<u128>,
 }
 
 pub fn check_step(cx: &StepCtx) -> Vec<Violation> {
@@ -557,6 +559,21 @@ pub fn check_step(cx: &StepCtx) -> Vec<Violation> {
                 if owed(post, *a) != owed(pre, *a) + b * k {
                     out.push(v("C15", "accrual-not-proportional", format!("{}: holder {} with balance {} accrued {} for an index step {}", kind, a, b, owed(post, *a) as i128 - owed(pre, *a) as i128, k)));
                     break;
+                }
+            }
+        }
+        // the index step of an update is what was *delivered* since the last one, per bSei: the
+        // reward-denom coins that reached the contract and were not paid out, judged from the bank
+        // history (not from the contract's own record, which a faulty claim can leave too high)
+        if g_moved && pre.rw.1 > 0 {
+            let updates = cx.chain_post.trace.iter().filter(|t| t.as_str() == format!("X{}.update_global_index", REWARD)).count();
+            if let (Some(g), 1) = (cx.ghost_recorded, updates) {
+                if post.reward_bank >= g && post.reward_bank <= D {
+                    let want = (post.reward_bank - g) * D / pre.rw.1;
+                    let k = post.rw.0 - pre.rw.0.min(post.rw.0);
+                    if k != want {
+                        out.push(v("C15", "index-step-ne-delivered-per-token", format!("{}: index moved by {} but {} coins were delivered for {} bSei since the last update (expected step {})", kind, k, post.reward_bank - g, pre.rw.1, want)));
+                    }
                 }
             }
         }
